@@ -196,6 +196,29 @@ pub fn run(ctx: &Ctx, rep: &mut Report) {
         }
     }
     rep.bound("unit_cfg", J::s(format!("{big:?} (k, r, columns compared)")));
+    // grid around every chunk-size boundary: whole matrices through unit vectors
+    let grid: Vec<usize> = if ctx.thorough() {
+        vec![1, 2, 3, 5, 8, 9, 16, 17, 31, 32, 33, 63, 64, 65, 100, 127, 128, 129, 255, 256, 257, 300, 511, 512, 513, 1000, 1023, 1024, 1025, 2047, 2048, 2049, 4095, 4096, 4097, 8191, 8192, 8193]
+    } else {
+        vec![1, 3, 8, 17, 32, 33, 65, 127, 128, 129, 255, 256, 257, 513, 1024, 1025, 2049, 4096, 4097]
+    };
+    let mut n_grid = 0;
+    for (gi, &k) in grid.iter().enumerate() {
+        for (gj, &r) in grid.iter().enumerate() {
+            if k <= fast_max && r <= fast_max {
+                continue;
+            }
+            for rate in ["high", "low"] {
+                if !spec_supports(Kind::parse(rate), k, r) {
+                    continue;
+                }
+                let eng = if (gi + gj) % 3 == 0 || !engines_fast().contains(&"avx2") { "nosimd" } else { "avx2" };
+                cases.push(Kv::new().with("mode", "unit").with("eng", eng).with("rate", rate).with("k", k).with("r", r).with("cols", "MAX"));
+                n_grid += 1;
+            }
+        }
+    }
+    rep.bound("unit_grid", J::s(format!("{grid:?} squared x {{high,low}}: {n_grid} whole matrices")));
 
     // big unit cases first so that they overlap with the many small ones
     cases.sort_by_key(|kv| if kv.str("mode") == "unit" { 0 } else { 1 });
